@@ -1,6 +1,7 @@
 package absint
 
 import (
+	"os"
 	"fmt"
 	"go/token"
 	"go/types"
@@ -193,11 +194,24 @@ func fieldOf(fn *ssa.Function) *Field {
 }
 
 func (fr *Frame) call(x *ssa.Call) Value {
-	it := fr.it
 	cc := x.Common()
 	args := make([]Value, len(cc.Args))
 	for i, a := range cc.Args {
 		args[i] = fr.get(a)
+	}
+	return fr.callArgs(x, args)
+}
+
+// callArgs performs the call x with the given argument values. An argument that is a selection between pointers
+// (PtrSel: r[bit], or two pointers merged at a join) is resolved by performing the call once per alternative on
+// the same pre-state and merging the effects under the selection conditions, exactly as the arms of a branch.
+func (fr *Frame) callArgs(x *ssa.Call, args []Value) Value {
+	it := fr.it
+	cc := x.Common()
+	for i, a := range args {
+		if sel, ok := a.(PtrSel); ok {
+			return fr.callSplit(x, args, i, sel)
+		}
 	}
 	if b, ok := cc.Value.(*ssa.Builtin); ok {
 		return fr.builtin(x, b.Name(), args)
@@ -291,6 +305,28 @@ func (fr *Frame) builtin(x *ssa.Call, name string, args []Value) Value {
 		}
 		return Top{Why: "cap"}
 	case "copy":
+		if od, isOff := args[0].(OffSlice); isOff {
+			// copy(pad[n-len(b):], b) into an all-zero pad with b the minimal big-endian bytes of an integer < 256^n:
+			// pad becomes the n-byte big-endian encoding of the integer
+			n := len(od.Arr.Kids)
+			if src, isA := args[1].(AbsSlice); isA && len(src.Segs) == 1 && src.Segs[0].Min != nil {
+				g := src.Segs[0]
+				_, hi := g.Min.Bounds()
+				zero := true
+				for _, c := range od.Arr.Kids {
+					if k, isK := it.loadValue(c).(KInt); !isK || k.V.Sign() != 0 {
+						zero = false
+					}
+				}
+				if zero && hi.BitLen() <= 8*n && od.Off.Equal(TInt(int64(n)).Sub(it.ApplyTerm(g.Len))) {
+					for i, c := range od.Arr.Kids {
+						it.storeValue(c, termValue(ByteOf(g.Min, n-1-i)))
+					}
+					return termValue(it.ApplyTerm(g.Len))
+				}
+			}
+			it.abortf("copy into a slice with a symbolic offset in %s", fr.fn)
+		}
 		dst, ok1 := it.asSlice(args[0])
 		if !ok1 {
 			it.abortf("copy into %s in %s", show(args[0]), fr.fn)
@@ -874,4 +910,124 @@ func (it *Interp) ConstBytes(bs []int64) Value {
 		o.Root.Kids[i].Val = KInt{big.NewInt(b)}
 	}
 	return SliceV{Arr: o.Root, Lo: 0, Len: TInt(int64(len(bs))), Cap: len(bs)}
+}
+
+
+// PtrSel is a pointer selected among alternatives: Alts[i] is chosen when Conds[i] holds and no earlier one does
+// (the last alternative is the default; its condition is not used). Top is set instead of Conds when the selecting
+// value is unknown (a secret in opaque mode).
+type PtrSel struct {
+	Alts  []*Cell
+	Conds []*Term
+	Top   *Top
+}
+
+func (s PtrSel) condValue(i int) (*Term, Value) {
+	if s.Top != nil {
+		return nil, *s.Top
+	}
+	return s.Conds[i], PredV{s.Conds[i]}
+}
+
+// mapSel applies f to every alternative.
+func (s PtrSel) mapSel(f func(c *Cell) *Cell) PtrSel {
+	out := PtrSel{Conds: s.Conds, Top: s.Top}
+	for _, c := range s.Alts {
+		out.Alts = append(out.Alts, f(c))
+	}
+	return out
+}
+
+func (fr *Frame) callSplit(x *ssa.Call, args []Value, idx int, sel PtrSel) Value {
+	it := fr.it
+	type alt struct {
+		ret    Value
+		writes map[*Cell]cellState
+		trace  []TraceEv
+	}
+	alts := make([]alt, len(sel.Alts))
+	for i, c := range sel.Alts {
+		a2 := append([]Value{}, args...)
+		a2[idx] = Ptr{c}
+		mark := len(it.journal)
+		tmark := len(it.Trace)
+		alts[i].ret = fr.callArgs(x, a2)
+		alts[i].writes = it.written(mark)
+		it.undoTo(mark)
+		alts[i].trace = append([]TraceEv{}, it.Trace[tmark:]...)
+		it.Trace = it.Trace[:tmark]
+	}
+	// trace discipline: the alternatives must execute the same sequence of function entries
+	k0 := traceKey(alts[0].trace)
+	same := true
+	for _, a := range alts[1:] {
+		if traceKey(a.trace) != k0 {
+			same = false
+		}
+	}
+	if !same && sel.Top != nil && sel.Top.Taint {
+		it.event("trace-divergence", fr.fn, x.Pos(), "a call through a pointer selected by a secret value executes different sequences of field-level operations depending on the selection")
+	}
+	it.Trace = append(it.Trace, alts[0].trace...)
+	// merge from the default alternative backwards
+	n := len(alts)
+	cells := map[*Cell]bool{}
+	for _, a := range alts {
+		for c := range a.writes {
+			cells[c] = true
+		}
+	}
+	state := func(a alt, c *Cell) cellState { return it.stateIn(a.writes, c) }
+	for c := range cells {
+		acc := state(alts[n-1], c)
+		for i := n - 2; i >= 0; i-- {
+			p, cv := sel.condValue(i)
+			acc = it.mergeState(p, cv, state(alts[i], c), acc, c)
+		}
+		if os.Getenv("SVDEBUGSEL") != "" {
+			fmt.Fprintf(os.Stderr, "SEL %s cell %s:", x.Common().Value.Name(), c.Path())
+			for i := range alts {
+				st := state(alts[i], c)
+				if st.rep != nil {
+					fmt.Fprintf(os.Stderr, " alt%d=rep(%s)", i, st.rep.T)
+				} else {
+					fmt.Fprintf(os.Stderr, " alt%d=%s", i, show(st.val))
+				}
+			}
+			if acc.rep != nil {
+				fmt.Fprintf(os.Stderr, " => rep(%s)\n", acc.rep.T)
+			} else {
+				fmt.Fprintf(os.Stderr, " => %s\n", show(acc.val))
+			}
+		}
+		it.journal = append(it.journal, jent{c, c.Val, c.Rep})
+		c.Val, c.Rep = acc.val, acc.rep
+	}
+	ret := alts[n-1].ret
+	for i := n - 2; i >= 0; i-- {
+		p, cv := sel.condValue(i)
+		ret = it.mergeValue(p, cv, alts[i].ret, ret)
+	}
+	return ret
+}
+
+
+// stateIn is the state of cell c at the end of an arm that made the given writes (the arm has been rolled back, so
+// an unwritten cell still shows its state in the arm). A limb array that the arm left as separate limbs is read as
+// the integer they compose, so that it can be merged with an arm that stored a whole value.
+func (it *Interp) stateIn(writes map[*Cell]cellState, c *Cell) cellState {
+	if s, ok := writes[c]; ok {
+		return s
+	}
+	if c.Rep == nil && c.Val == nil && len(c.Kids) > 0 {
+		for _, k := range c.Kids {
+			if _, w := writes[k]; w {
+				return cellState{c.Val, c.Rep}
+			}
+		}
+		if t, ok := it.readInt(c); ok {
+			return cellState{rep: &Rep{t}}
+		}
+	}
+	return cellState{c.Val, c.Rep}
 }
